@@ -162,9 +162,9 @@ impl<RS: VReadSeek> SeekableChain<RS> {
 //@|        r is Ok ==> (r->Ok_0 == 0 ==> old(buf)@.len() == 0 || old(self).abs_pos >= old(self).all().len()), // O:read.eof
 //@   loop 1
 //@|    invariant
-//@|        self.wf(),
-//@|        self.chain@ == old(self).chain@,
-//@|        self.abs_pos == old(self).abs_pos,
+//@|        self.wf(), // O:read.inv.wf
+//@|        self.chain@ == old(self).chain@, // O:read.inv.frame
+//@|        self.abs_pos == old(self).abs_pos, // O:read.inv.pos
 //@|        self.max_pos == old(self).max_pos,
 //@|    decreases self.chain@.len() - self.cur_idx,
 //@   hint before `Ok(0)`
@@ -216,8 +216,8 @@ impl<RS: VReadSeek> SeekableChain<RS> {
 //@|        vx_i <= self.chain@.len(),
 //@|        self.cur_idx == vx_i,
 //@|        self.rel_pos == 0,
-//@|        self.abs_pos == sum_sizes(self.chain@, vx_i as int),
-//@|        self.abs_pos + pos == pos0,
+//@|        self.abs_pos == sum_sizes(self.chain@, vx_i as int), // O:seek_abs.inv.abs
+//@|        self.abs_pos + pos == pos0, // O:seek_abs.inv.rem
 //@|        pos0 <= self.max_pos,
 //@|    ensures
 //@|        self.wf(),
